@@ -24,17 +24,19 @@ def resField (obs : String) : List Int :=
 
 def isBadRun (impl : String) : Bool := impl.startsWith "panic" || impl == "hang"
 
-def specLcs (s : S) (k : Nat) (impl : String) : String :=
+def specLcsOn (lhs rhs : List Int) (k : Nat) (impl : String) : String :=
   if isBadRun impl then "bad LCS must return" else
   let key : Int → Int := fun v => if k = 0 then v else v % (k : Int)
   let res := (resField impl).map key
-  let a := s.lhs.map key
-  let b := s.rhs.map key
+  let a := lhs.map key
+  let b := rhs.map key
   let opt := Subseq.lcsLenDP a b
   firstBad [
     (res.isSublist a && res.isSublist b, "not a common subsequence"),
     (res.length == opt, s!"not optimal: {res.length} vs {opt}"),
     ((afterKey impl "mod=").startsWith "F", "input modified")]
+
+def specLcs (s : S) (k : Nat) (impl : String) : String := specLcsOn s.lhs s.rhs k impl
 
 def stepLcs (s : S) (toks : List String) (impl : String) : S × String × String :=
   let call (k : Nat) : S × String × String :=
@@ -50,6 +52,13 @@ def stepLcs (s : S) (toks : List String) (impl : String) : S × String × String
   | "r" :: vs => let s' := { s with rhs := s.rhs ++ parseInts vs }; (s', s!"r={s'.rhs.length}", "-")
   | ["lcs"] => call 0
   | ["lcsf", k] => call (k.toNat?.getD 0)
+  | ["lcsview", a, b] =>
+    -- the two arguments are the prefixes lhs[:a] and lhs[:b] (in Go: views of one backing array)
+    let l := s.lhs.take (a.toNat?.getD 0)
+    let r := s.lhs.take (b.toNat?.getD 0)
+    (match lcsFunc? (fun x y => decide (x = y)) l r with
+     | some res => (s, s!"res={fmtInts res} nil={fmtBool (lcsIsNil l r)} mod=F", specLcsOn l r 0 impl)
+     | none => (s, "panic:index", specLcsOn l r 0 impl))
   | _ => (s, "bad-op", "bad bad-op")
 
 def cmpOf (mode : String) : Int → Int → Int :=
